@@ -166,7 +166,8 @@ def check(pid, tier, seed):
     assert len(set(names)) == len(names), 'duplicate partition names'
     meta = getattr(mod, 'META', {})
     workdir = tempfile.mkdtemp(prefix='verif-%s-' % pid, dir=os.environ.get('VERIF_WORK'))
-    replay_dir = os.path.join(VERIF, 'evidence', 'replay')
+    evidence_dir = os.environ.get('VERIF_EVIDENCE_DIR') or os.path.join(VERIF, 'evidence')
+    replay_dir = os.path.join(evidence_dir, 'replay')
     os.makedirs(replay_dir, exist_ok=True)
     for old in os.listdir(replay_dir):
         if old.startswith(pid + '-'):
@@ -443,7 +444,7 @@ def check(pid, tier, seed):
         }
         if hasattr(mod, 'evidence_extra'):
             ev['coverage'].update(mod.evidence_extra(tier, kernel_results, results))
-        with open(os.path.join(VERIF, 'evidence', pid + '.json'), 'w') as f:
+        with open(os.path.join(evidence_dir, pid + '.json'), 'w') as f:
             json.dump(ev, f, indent=1, default=str)
 
         for ln in known_lines:
